@@ -23,6 +23,18 @@ class SymArr(np.ndarray):
     @property
     def itemsize(self): return self.sdt.itemsize
 
+    @property
+    def dtype(self): return self.sdt          # what the code under analysis sees (byteorder, kind, itemsize); storage stays object
+
+    def byteswap(self, inplace=False):
+        assert not inplace
+        n = self.sdt.itemsize
+        out = np.empty(self.shape, dtype=object)
+        for idx in np.ndindex(self.shape):
+            x = bvw(np.ndarray.__getitem__(self, idx), 8 * n)
+            out[idx] = x if n == 1 else z3.simplify(z3.Concat(*[z3.Extract(8 * b + 7, 8 * b, x) for b in range(n)]))
+        return SymArr(out, self.sdt)
+
     def view(self, *a, **k):
         if not a and not k: return self
         dt = a[0] if a else k.get('dtype')
@@ -131,6 +143,8 @@ def selfcheck(shapes, rng):
         sa = SymArr(np.vectorize(lambda v: z3.BitVecVal(int(v), w), otypes=[object])(data), dt)
         r = data.view(np.uint8); s_ = sa.view(np.uint8)
         if r.shape != s_.shape or not np.array_equal(r, val(s_).astype(np.uint8)): probs.append(f'view {dt}->uint8')
+        r = data.byteswap(); s2 = sa.byteswap()
+        if [int(v) % (1 << w) for v in r.reshape(-1)] != [int(v) for v in val(s2).reshape(-1)] or sa.dtype != data.dtype: probs.append(f'byteswap {dt}')
         back = s_.view(dt)
         if back.shape != data.shape or [int(v) % (1 << w) for v in data.reshape(-1)] != [int(v) % (1 << w) for v in val(back).reshape(-1)]: probs.append(f'view uint8->{dt}')
     return probs
